@@ -3,7 +3,7 @@ from . import sheetprop as P
 
 FEATURES = "media,amp,keyframes,fontface,stmt,str,url,attr".split(',')
 RULE = 'see harness/props/sheetprop.py: generated stylesheets with features %s; model compared byte-for-byte, reference semantics compared on the flat items read back from the output CSS by an independent reader' % FEATURES
-ASSUMPTIONS = ['the LALR parser builds the node tree that harness/gens/sheet.py:tree() predicts (checked on every case through the byte-exact output comparison)',
+ASSUMPTIONS = ['the LALR parser builds the node tree that harness/gens/sheet.py:tree() predicts (checked on every case through the byte-exact output comparison); independently of that prediction, the whole pipeline from the source TEXT (coq/Model/Lex.v + Parse.v + Eval.v: compile_text) is compared byte for byte with the real compiler on every case (abstentions counted in distribution.text_pipeline)',
                'harness/readcss.py reads the produced CSS back correctly']
 TRUSTED = ['modelled by hand: Identifier.parse/root/fmt, Block.parse (media rotation), Property.parse/fmt, Block.fmt, Formatter, Scope (coq/Model/Ident.v, Eval.v, Fmt.v, Scope.v)',
            'reference semantics coq/Spec/Sem.v']
@@ -96,7 +96,7 @@ def run(ctx):
             asts.append(sh)
     # every sheet under ALL 72 option vectors: byte-exact model + reference semantics + documented shape
     allcases = [{'sheet': a, 'text': t, 'opts': o, 'classes': []} for a, t in zip(asts, sheets) for o in SC.ALL_OPTS]
-    o2, ans = SC.run(dict(ctx, scratch=os.path.join(ctx['scratch'], 'all72')), allcases, tag='all72')
+    o2, ans = SC.run(dict(ctx, scratch=os.path.join(ctx['scratch'], 'all72'), text_pipeline=False), allcases, tag='all72')     # same texts 72 times: the lexer / parser rows would repeat
     for k in ('spec_mismatch', 'model_mismatch', 'harness_errors'):
         out[k] += o2[k]
     shapes = 0
